@@ -488,7 +488,8 @@ package fpgo
 // tr_res = the boxed result): the patterns are asked in list order, each at most once, every earlier one answered false;
 // after the first that answers true exactly one Apply follows - on that same pattern, with the value that was tested - and
 // its result is returned; nothing else is asked.  MatchFor panics exactly when every pattern was asked and answered false.
-// The probed value is the argument itself unless the argument is a pointer (a non-nil pointer to a struct is dereferenced).
+// The probed value is the argument itself unless the argument is a non-nil pointer: then it is what Maybe.ToPtr points to when
+// that is a struct value, else the argument (stated for the accepting test and its Apply).
 //@ func (PatternMatching).MatchFor
 //@   prop C20
 //@   opt callbacks=effectful
@@ -500,6 +501,7 @@ package fpgo
 //@   ensures first-accepting: tr_kind[tr_len-2] == 2 && tr_recv[tr_len-2] == patternMatchingSelf.patterns[tr_len - old(tr_len) - 2] && tr_fn[tr_len-2] == method("Pattern.Matches") && tr_res[tr_len-2] == boxed(true)
 //@   ensures applied: tr_kind[tr_len-1] == 2 && tr_recv[tr_len-1] == patternMatchingSelf.patterns[tr_len - old(tr_len) - 2] && tr_fn[tr_len-1] == method("Pattern.Apply") && tr_arg[tr_len-1] == tr_arg[tr_len-2] && r0 == tr_res[tr_len-1]
 //@   ensures probe: rkind(inValue) != 22 ==> forall(k, old(tr_len), tr_len, tr_arg[k] == inValue)
+//@   ensures probe-pointer: rkind(inValue) == 22 && !nilref(inValue) ==> tr_arg[tr_len-2] == ite(ToPtr_r0 != nil && !untyped(*ToPtr_r0) && rkind(*ToPtr_r0) == 25, *ToPtr_r0, inValue)
 //@   ensures@panic none-accepted: tr_len == old(tr_len) + len(patternMatchingSelf.patterns) && forall(k, 0, len(patternMatchingSelf.patterns), tr_kind[old(tr_len)+k] == 2 && tr_recv[old(tr_len)+k] == patternMatchingSelf.patterns[k] && tr_fn[old(tr_len)+k] == method("Pattern.Matches") && tr_res[old(tr_len)+k] == boxed(false))
 //@ func (PatternMatching).MatchFor loop 0
 //@   invariant rejected: tr_len == old(tr_len) + _i && forall(k, 0, _i, tr_kind[old(tr_len)+k] == 2 && tr_recv[old(tr_len)+k] == patternMatchingSelf.patterns[k] && tr_fn[old(tr_len)+k] == method("Pattern.Matches") && tr_res[old(tr_len)+k] == boxed(false))
